@@ -33,13 +33,13 @@ func init() {
 }
 
 type c08Config struct {
-	Limit    string // "" none
-	Burn     bool
-	Send     bool
-	MaxBody  uint64
-	Denom    string
-	BurnEnv  int // 0 ok, 1 ftf paused, 2 module not a minter, 3 module blacklisted
-	Whale    bool
+	Limit   string // "" none
+	Burn    bool
+	Send    bool
+	MaxBody uint64
+	Denom   string
+	BurnEnv int // 0 ok, 1 ftf paused, 2 module not a minter, 3 module blacklisted
+	Whale   bool
 }
 
 func (c c08Config) String() string {
